@@ -65,7 +65,7 @@ def pyrow(r):
 # ------------------------------------------------------------------------- operations -----
 def enabled(t):
     names = [n for n, _ in t.space]
-    ops = [("roundtrip",), ("eq_self",), ("eq_reordered",), ("len",)]
+    ops = [("roundtrip",), ("eq_self",), ("eq_reordered",), ("len",), ("pow",), ("iter",), ("join_empty",), ("mask_fullshape",)]
     for r in ROWS:
         ops.append(("rows", r))
         for n in names[:3]:
@@ -100,7 +100,7 @@ def apply_model(t, op):
     """-> (new table or None when the op is an observation, observation value)"""
     k = op[0]
     nb = t.data.ndim - 1
-    if k in ("roundtrip", "eq_self", "eq_reordered", "len", "coords_names"):
+    if k in ("roundtrip", "eq_self", "eq_reordered", "len", "coords_names", "pow", "iter", "join_empty", "mask_fullshape"):
         return None, None
     if k == "rows":
         d = t.data[pyrow(op[1])]
@@ -287,6 +287,40 @@ def observe(p, t, op):
     elif k == "len":
         if len(p) != int(np.prod(t.data.shape[:-1])) or tuple(p.shape) != t.data.shape[:-1] or p.dim != t.data.shape[-1]:
             out.append(("C12|len", "len/shape/dim = %s/%s/%s for table shape %s" % (len(p), tuple(p.shape), p.dim, t.data.shape)))
+    elif k == "pow":
+        two = Points(torch.full_like(p.as_tensor, 2.0), p.space)
+        try:
+            q = p ** two
+            if list(q.space.items()) != list(t.space) or not np.allclose(q.as_tensor.double().numpy(), t.data ** 2, rtol=1e-5, atol=1e-6):
+                out.append(("C12|pow", "p ** 2 differs from the squared table"))
+        except Exception as e:
+            out.append(("C12|pow", "p ** Points(2) raised %s" % type(e).__name__))
+    elif k == "iter":
+        rows = list(iter(p))
+        n0 = t.data.shape[0]
+        if len(rows) != n0:
+            out.append(("C12|iter", "iteration yields %d items for %d rows" % (len(rows), n0)))
+        else:
+            for i, r in enumerate(rows):
+                exp = t.data[i]
+                got = r.as_tensor.double().numpy() if isinstance(r, Points) else None
+                if got is None or list(r.space.items()) != list(t.space) or got.reshape(-1).shape != exp.reshape(-1).shape or \
+                        not np.allclose(got.reshape(-1), exp.reshape(-1)):
+                    out.append(("C12|iter", "item %d of the iteration is not row %d of the table" % (i, i)))
+                    break
+    elif k == "join_empty":
+        for q, nm in ((p.join(Points.empty()), "p.join(empty)"), (Points.empty().join(p), "empty.join(p)"),
+                      (Points.joined(Points.empty(), p, Points.empty()), "joined(empty, p, empty)")):
+            bad = same(q, t)
+            if bad:
+                out.append(("C12|join-empty", "%s differs from p: %s" % (nm, bad)))
+    elif k == "mask_fullshape":
+        m = torch.ones(p.as_tensor.shape, dtype=torch.bool)
+        try:
+            q = p[m]
+            out.append(("C12|mask-fullshape-accepted", "a boolean mask over the column axis was accepted and gave shape %s" % (tuple(q.as_tensor.shape),)))
+        except (IndexError, AssertionError, ValueError, RuntimeError, TypeError):
+            pass
     elif k == "coords_names":
         if p.variables != {n for n, _ in t.space}:
             out.append(("C12|variables", "variables %s" % p.variables))
@@ -317,7 +351,7 @@ class System:
                 rejected = False
             except (Reject, IndexError):
                 rejected = True
-            if op[0] in ("roundtrip", "eq_self", "eq_reordered", "len", "coords_names"):
+            if op[0] in ("roundtrip", "eq_self", "eq_reordered", "len", "coords_names", "pow", "iter", "join_empty", "mask_fullshape"):
                 if last:
                     try:
                         verdicts += [(k + "|" + op[0], w) for k, w in observe(p, t, op)]
@@ -444,6 +478,19 @@ def space_algebra(res, on_v):
         for v in a:
             if A[v] != VARS[v]:
                 on_v("C12|space|getitem", "Space(%s)[%s] = %s" % (a, v, A[v]), None, [])
+        # copies (deepcopy / pickle go through __reduce__) keep names, dimensions and order
+        import copy
+        import pickle
+        for nm, C in (("deepcopy", copy.deepcopy(A)), ("pickle", pickle.loads(pickle.dumps(A)))):
+            n += 1
+            if list(C.items()) != [(v, VARS[v]) for v in a] or not (C == A) or C.dim != A.dim:
+                on_v("C12|space|copy", "%s of Space(%s) is %s" % (nm, a, list(C.items())), None, [])
+    from torchphysics.problem.spaces import R1, R2, R3, Rn
+    for cls, args, d in ((R1, ("q",), 1), (R2, ("q",), 2), (R3, ("q",), 3), (Rn, ("q", 5), 5)):
+        Sx = cls(*args)
+        n += 1
+        if list(Sx.items()) != [("q", d)] or Sx.dim != d or not (Sx == Space({"q": d})):
+            on_v("C12|space|named-constructors", "%s%s = %s" % (cls.__name__, args, list(Sx.items())), None, [])
     res["states"] = len(sels)
     res["transitions"] = n
     res["evals"] = n
